@@ -21,10 +21,10 @@ CLAIMED = {
   "note": "Trusted: stops_ non-decreasing and non-negative with one entry per partition (class invariant, assumed); callee contracts of length()/getitem_at_nowrap assumed.",
   "technique": "contract-based deductive verification of the extracted partition methods (VC generator over the clang AST, z3/cvc5)"},
  "C14": {
-  "text": "Under deductive contract: the buffer layer of the builders only -- GrowableBuffer<int64_t>::append/set_length/set_reserved/clear/getitem_at_nowrap extracted from the clang AST and proved for all states: 0 <= length <= reserved always, append stores the datum at the old length inside the (possibly reallocated) buffer and leaves every earlier element unchanged whether or not it reallocates (the snapshot-immutability clause at the only place data can move), for every ArrayBuilderOptions (initial, resize) value. The builder tree (type promotion, option/union/record unification) is covered by the bounded Engine N families only; from_iter's Python side and LayoutBuilder are NOT covered.",
+  "text": "Under deductive contract: the buffer layer of the builders only -- GrowableBuffer<int64_t>::append/set_length/set_reserved/clear/getitem_at_nowrap extracted from the clang AST and proved for all states: 0 <= length <= reserved always, append stores the datum at the old length inside the (possibly reallocated) buffer and leaves every earlier element unchanged whether or not it reallocates (the snapshot-immutability clause at the only place data can move), for every ArrayBuilderOptions (initial, resize) value. Also under contract, one level up: every value-taking method of OptionBuilder and ListBuilder (16 each), executed over the nested builder's interface (length/active, assumed: a call completes 0 or 1 element, only end_* completes one while active): OptionBuilder appends to index_ exactly as many entries as its content's length grew by, each equal to the content's previous length (null on an inactive content: one -1); ListBuilder appends to offsets_ only when end_list closes a list opened at its own level, the entry being the content's length, and resets begun_. The rest of the builder tree (type promotion, union/record/tuple unification) is covered by the bounded Engine N families only; from_iter's Python side and LayoutBuilder are NOT covered.",
   "ref": "DESIGN.md section 5 (C14)",
   "note": "Trusted: set_reserved's memcpy/malloc (its contract is assumed at call sites), float growth factor abstract; builder tree rewriting not covered.",
-  "technique": "contract-based deductive verification of the extracted GrowableBuffer methods (VC generator over the clang AST, z3/cvc5)"},
+  "technique": "contract-based deductive verification of the extracted GrowableBuffer, OptionBuilder and ListBuilder methods (VC generator over the clang AST, z3/cvc5)"},
  "C01": {
   "text": "Kernel- and helper-level lemmas of slicing, proved for all inputs: awkward_regularize_rangeslice equals CPython's slice adjustment (PySlice_AdjustIndices) for both step signs and absent bounds; every getitem/carry/jagged/missing kernel is proved equal to its Python definition (lockstep) and memory-safe under its contract, with functional contracts on the carry kernels (output position = start + wrapped index; error iff out of range). The recursion through Content::getitem_next and toslice() is not covered.",
   "ref": 'DESIGN.md section 5 (C01)',
